@@ -1,6 +1,6 @@
 (* Properties_C16.v — the theorems that decide property C16 on the model, each stated in full and closed by
    `exact <lemma>`; the lemmas live in the Proofs_*.v files.  Nothing else belongs in this file. *)
-From Theo Require Import Base VMModel VMSpec VMStatements VMCheck VMCheckStatements Proofs_VMCheck.
+From Theo Require Import Base VMModel VMSpec VMStatements VMCheck VMCheckStatements Proofs_VMCheck GenWfStatements Tokens Errors MacroExtract Parser GenModel CompileStatements Proofs_GenWf.
 Local Open Scope Z_scope.
 Local Open Scope Z_scope.
 
@@ -30,3 +30,12 @@ Theorem C16_ref_depth :
       end.
 Proof. exact C16_ref_depth_proof. Qed.
 Print Assumptions C16_ref_depth.
+
+Theorem C16_gen_depth :
+  forall toks root r, parse_tokens toks = Ok (Some root, []) ->
+    gen true [] (Some root) = Ok r -> gr_ok r = true ->
+    forall k, exists s, vm_run k (init (gr_prog r)) = Ok s /\
+                        (exists b, isDone s = Ok b) /\ (exists v, views s = Ok v) /\
+                        zlen (stack s) <= zlen (exec_targets (gr_prog r)) + 1.
+Proof. exact C03_gen_safe_proof. Qed.
+Print Assumptions C16_gen_depth.
